@@ -349,6 +349,56 @@ theorem inv_mapply (m : List Sys) (k : Nat) (op : IOp) (hI : ∀ sys ∈ m, Inv 
     · subst h
       exact inv_istep sys op (hI sys (List.mem_of_getElem? hk)) (he sys hk)
 
+/-! ## Keep responses: parked responses mark nothing; deliveries without pre-reservation -/
+
+/-- a keep response whose virtual qubit is still allocated is parked: NOTHING changes — in particular
+its physical qubit is not marked in use by the executor -/
+theorem keepResp_parked_unchanged (s : State) (a : Nat) (ap : App) (v : Int) (p : Nat)
+    (hap : s.apps a = some ap) (h0 : 0 ≤ v) (h1 : v < ap.unit.length)
+    (hbusy : (ap.unit[v.toNat]?.join).isSome = true) : keepResp s a v p = (s, none) := by
+  unfold keepResp
+  simp only [hap]
+  rw [if_pos ⟨h0, h1, hbusy⟩]
+
+/-- histories WITHOUT pre-reservation (a stub network stack): the delivered physical qubit is any id
+that is unused at the moment the response is handled.  A response that is handled successfully (or
+parked) preserves the invariant; used stays exactly mapped ∪ reserved. -/
+theorem inv_keepResp_fresh (s : State) (a : Nat) (v : Int) (p : Nat) (hI : Inv s) (hp : p ∉ s.used)
+    (hok : (keepResp s a v p).2 = none) : Inv (keepResp s a v p).1 := by
+  have hpr : p ∉ s.reserved := fun h => hp ((hI.used_iff p).2 (Or.inr h))
+  unfold keepResp at hok ⊢
+  split
+  · exact hI
+  · rename_i ap hap
+    have hu : unitOf s a = some ap.unit := by simp [unitOf, hap]
+    simp only [hap] at hok
+    simp only []
+    split
+    · exact hI
+    · rename_i hdef
+      simp only [hdef, if_false] at hok
+      split
+      · rename_i hge; simp [hge] at hok
+      · rename_i hge
+        simp only [hge, if_false] at hok
+        split
+        · rename_i hk; simp [hk] at hok
+        · rename_i k hk
+          simp only [hk] at hok
+          split
+          · rename_i q hq; simp [hq] at hok
+          · rename_i hn
+            refine inv_alloc (q := p) hI hu (pyIdx_lt hk) hn hp ?_ ?_ ?_ rfl
+            · funext b
+              simp only [unitOf, upd]
+              split <;> simp
+            · intro x; simp [mem_sadd]
+            · simp only []
+              apply List.filter_eq_self.2
+              intro x hx
+              simp only [bne_iff_ne, ne_eq]
+              intro e; subst e; exact hpr hx
+
 /-! ## Non-vacuity: a concrete history with two applications, allocation, delivery, stop, re-registration -/
 
 def q0 : XReg := ⟨2, 0⟩
